@@ -214,6 +214,41 @@ class SimSocket:
     def fileno(self):
         return -1 if self.closed else 3
 
+    # -- harmless parts of the socket surface a refactor might start using -------------------------
+    def setsockopt(self, *a):
+        if self.closed:
+            raise OSError(errno.EBADF, "Bad file descriptor")
+
+    def getsockopt(self, *a):
+        return 0
+
+    def setblocking(self, flag):
+        self.timeout = None if flag else 0.0
+
+    def getsockname(self):
+        return self.addr or ("0.0.0.0", 0)
+
+    def recv(self, n):
+        return self.recvfrom(n)[0]
+
+    def connect(self, addr):
+        self.peer = (addr[0], int(addr[1]))
+
+    def send(self, data):
+        peer = getattr(self, "peer", None)
+        if peer is None:
+            raise OSError(errno.EDESTADDRREQ, "Destination address required")
+        return self.sendto(data, peer)
+
+    def __enter__(self):
+        return self
+
+    def __exit__(self, *a):
+        self.close()
+
+    def __getattr__(self, name):
+        raise HarnessError("the code under test used socket.%s(), which the simulated socket does not model" % name)
+
 
 class SimSocketModule:
     """Replaces the name `socket` inside basic_robotics.interfaces.udp_bridge."""
@@ -223,11 +258,22 @@ class SimSocketModule:
     SHUT_RD, SHUT_WR, SHUT_RDWR = SHUT_RD, SHUT_WR, SHUT_RDWR
     timeout = TimeoutError
     error = OSError
+    SOL_SOCKET, SO_REUSEADDR, SO_REUSEPORT, SO_BROADCAST, SO_RCVBUF, SO_SNDBUF = 1, 2, 15, 6, 8, 7
+    IPPROTO_UDP, IPPROTO_IP, INADDR_ANY = 17, 0, 0
 
     def __init__(self, net):
         self.net = net
         self.next_label = None
         self.created = []
+
+    def gethostbyname(self, name):
+        return "127.0.0.1"
+
+    def gethostname(self):
+        return "simhost"
+
+    def __getattr__(self, name):
+        raise HarnessError("the code under test used socket.%s, which the simulated socket module does not model" % name)
 
     def socket(self, family=AF_INET, type=SOCK_DGRAM, proto=0):
         if family != AF_INET or type != SOCK_DGRAM:
